@@ -497,3 +497,16 @@ def sup_existence_mapping_same_context_string(case, v):
         if m.get('kind') == 'exist' and any(k in twins for k in m.get('order', [])):
             return True
     return False
+
+
+def nested_limiter_interrupt_during_pool_close(case, v):
+    """KF24: nested time limiters whose inner limit expires shortly after the outer one: the outer interrupt can reach the
+    worker while the inner limiter closes its thread pool; the inner worker then keeps running after the outer call
+    returned. Only nested schedules in which the inner limiter times out by itself (inner limit < function duration)
+    and the outer limit is the shorter one"""
+    if case.get('kind') != 'nested_inner_times_out':
+        return False
+    limit = case['limit_ms']/1000.
+    dur = max(0.001, limit+case['delta_ms']/1000.)
+    inner_limit = dur/2
+    return inner_limit >= limit-0.05   # the inner expiry falls at or behind the outer one (within scheduling noise)
